@@ -544,4 +544,11 @@ def check(ctx, rep):
 
     # the edit lands where the detector says: positions taken before an earlier codemod of the run shifted the file point at other code
     rule_detector_fresh(ctx, rep)
+    from .c06 import rule_rule_keyed
+    from .c03 import rule_codec_agree
+
+    # only the documented edit, only at the reported place: the per-file findings reach the transformer unfiltered, and the text that is
+    # parsed is the text that is written back (a file decoded by its PEP 263 cookie and written as UTF-8 changes every non-ASCII literal)
+    rule_rule_keyed(ctx, rep)
+    rule_codec_agree(ctx, rep)
     rep.not_covered += ["preservation of every token of arbitrary call shapes through libcst", "argument order for star-args"]
